@@ -38,7 +38,9 @@ Inductive hop : Type :=
 | ONum (o : nat)        (* objs[o].num_subsections / .num_subsubsections / .num_attributes *)
 | OList (o : nat)       (* objs[o].subsections / .subsubsections / .attributes *)
 | OIter (o : nat) (f : option (list Z))   (* list(objs[o].iter_...(f)) *)
-| ODisturb (pos : Z).   (* the client reads something else of the same file: stream.seek(pos) *)
+| ODisturb (pos : Z)    (* the client reads something else of the same file: stream.seek(pos) *)
+| OCopy (o : nat).      (* objs[o] = pickle.loads(pickle.dumps(objs[o])) / copy.deepcopy / copy.copy: the client goes on
+                           with the copy (walks in flight keep the original alive) *)
 
 (* what a client sees of one yielded thing *)
 Inductive view : Type :=
@@ -192,6 +194,11 @@ Definition sstep (exp : list osubsec) (st : sstate) (op : hop) : sstate * hans :
           (mkSState (s_objs st ++ children its) (s_gens st), HItems (List.length (s_objs st)) (map snd its))
       end
   | ODisturb _ => (st, HUnit)
+  | OCopy o =>
+      match nth_error (s_objs st) o with
+      | None => (st, HBad)
+      | Some _ => (st, HUnit)
+      end
   end.
 
 Fixpoint srun (exp : list osubsec) (st : sstate) (h : list hop) : list hans :=
@@ -212,7 +219,9 @@ Inductive eop : Type :=
 | EMnem (e : nat)      (* entries[e].mnmemonic_array() *)
 | EDecoder (e : nat)   (* d = EHABIBytecodeDecoder(entries[e].bytecode_array): a new decoder object; d.mnemonic_array *)
 | ERedecode (d : nat)  (* decoders[d]._decode(); decoders[d].mnemonic_array *)
-| ERead (d : nat).     (* decoders[d].mnemonic_array *)
+| ERead (d : nat)      (* decoders[d].mnemonic_array *)
+| ECopyInfo            (* info = pickle round trip / copy.deepcopy / copy.copy of info (or of its structs object) *)
+| EReopen.             (* info = a NEW EHABIInfo: get_ehabi_infos()[0] of the ELFFile or of a pickled / deep-copied ELFFile *)
 
 Definition mnitems : Type := list (list Z * string).
 Inductive eans : Type :=
@@ -220,6 +229,7 @@ Inductive eans : Type :=
 | EAEntry (r : eh_out)
 | EAMnem (m : option mnitems)    (* None: mnmemonic_array() returned None *)
 | EAErr (e : err)
+| EAUnit                          (* nothing to see (copy, reopen) *)
 | EABad.                         (* names an entry / decoder that was never created, or a decoder over no byte-code *)
 
 Record espec := mkESpec { es_entries : list eh_out; es_decoders : list (list Z) }.
@@ -267,6 +277,7 @@ Definition estep_spec (num : Z) (entry : Z -> res eh_out) (disasm : list Z -> re
       | Some bc => (st, match disasm bc with Ok l => EAMnem (Some l) | Err x => EAErr x end)
       | None => (st, EABad)
       end
+  | ECopyInfo | EReopen => (st, EAUnit)
   end.
 
 Fixpoint erun_spec (num : Z) (entry : Z -> res eh_out) (disasm : list Z -> res mnitems)
